@@ -50,6 +50,17 @@ C40_SelectExact(sessions, q, specs, err, out) ==
   ELSE err # ""
 C40_CreationOrder(out) == \A i \in 1..(Len(out) - 1) : TimeLeq(out[i], out[i + 1])
 
+\* ---------------------------------------------------------------- selection after a history (SelectionHistory.tla)
+\* sessions: every session ever created, with alive = its session file still exists and no Terminate
+\* disabled it; queries are judged against the live ones only
+RECURSIVE LiveOf(_)
+LiveOf(ss) == IF ss = <<>> THEN <<>> ELSE (IF Head(ss).alive THEN <<Head(ss)>> ELSE <<>>) \o LiveOf(Tail(ss))
+C40_ExactSelection(sessions, queries) ==
+  \A k \in DOMAIN queries :
+    LET qr == queries[k] IN
+    /\ C40_SelectExact(LiveOf(sessions), qr.q, qr.specs, qr.err, qr.out)
+    /\ C40_CreationOrder(qr.out)
+
 \* ---------------------------------------------------------------- depth-first path order
 \* component names of the bound in byte order: '-' < '.' < '/' < '0'
 Names == <<"a", "a-b", "a.b", "a0", "b">>
